@@ -1,5 +1,5 @@
 """
-Bounded stand-in (labelled bounded): GroupBase.idx2model / GroupBase.get on a small real group (two stub models registered through
+Bounded stand-in (labelled bounded): GroupBase.idx2model and GroupBase.get on a small real group (two stub models registered through
 GroupBase.add_model / add), exhaustive over idx in {registered int, registered str, unknown, None} x allow_none in {False, True},
 scalar and list form.  Oracle: a registered idx gives its own model / value; None is accepted only with allow_none (giving
 None / the default); everything else raises KeyError -- a dangling reference is never resolved to something else.
@@ -49,4 +49,39 @@ def run():
                 bad.append({'call': 'GroupBase.idx2model(%r, allow_none=%r)' % (q, allow_none),
                             'observed': 'KeyError' if got is KeyError else repr([getattr(x, 'class_name', x) for x in got] if isinstance(got, list) else got),
                             'expected': 'KeyError' if want is KeyError else repr([getattr(x, 'class_name', x) for x in want])})
+    # GroupBase.get: element k of the result is the value of device idx[k] (whatever the order, with repeats, across models);
+    # None positions give the default
+    class M2:
+        def __init__(self, name, idxs, vals):
+            self.class_name, self.n = name, len(idxs)
+            self.uid = {i: k for k, i in enumerate(idxs)}
+            self.__dict__['p'] = SimpleNamespace(v=np.array(vals, dtype=float), a=np.array([100 + int(10 * x) for x in vals]))
+
+        def idx2uid(self, idx):
+            return [self.uid[i] for i in idx] if isinstance(idx, (list, tuple, np.ndarray)) else self.uid[idx]
+    g2 = GroupBase()
+    g2.common_params.append('p')
+    m1, m2 = M2('A', [1, 2, 3], [1.1, 2.2, 3.3]), M2('B', ['G4', 'G5'], [4.4, 5.5])
+    g2.add_model('A', m1)
+    g2.add_model('B', m2)
+    val = {}
+    for mdl in (m1, m2):
+        for i, k in mdl.uid.items():
+            g2.add(i, mdl)
+            val[i] = (float(mdl.__dict__['p'].v[k]), int(mdl.__dict__['p'].a[k]))
+    queries = [list(q) for r in (1, 2, 3) for q in itertools.permutations([1, 2, 3, 'G4', 'G5'], r)] + \
+        [[3, 2, 1, 'G5', 'G4'], [1, 1, 2], ['G5', 'G4'], [2, 'G4', 1, 'G5', 3], [1, None, 3], [None, 'G5', 'G4']]
+    for q in queries:
+        for attr, pos in (('v', 0), ('a', 1)):
+            n += 1
+            allow = any(x is None for x in q)
+            want = [(-7.0 if x is None else float(val[x][pos])) for x in q]
+            try:
+                got = [float(x) for x in np.ravel(g2.get('p', q, attr=attr, allow_none=allow, default=-7.0))]
+            except Exception as e:      # noqa
+                got = repr(e)
+            if got != want:
+                bad.append({'call': "GroupBase.get('p', %r, attr=%r, allow_none=%r, default=-7.0)" % (q, attr, allow), 'observed': repr(got),
+                            'expected': repr(want)})
+                return n, bad
     return n, bad
